@@ -5,9 +5,11 @@ namespace Drv.PollOp
 open Proto Device
 
 /-- reply kinds used by the harness; 0 pending, 1 slow_down, 2 transport failure, ≥3 decisive; 20–24 are pending /
-slow_down error documents under statuses other than 400 (the error CODE decides, not the status) -/
+slow_down error documents under statuses other than 400 (the error CODE decides, not the status); 25–29 are the same two
+codes in exotic but conforming documents (whitespace, member order, unknown and duplicate unknown members, an `interval` member,
+no / another Content-Type, the positional form) -/
 def replyOf : Nat → Reply
-  | 0 | 20 | 21 | 22 => .pending | 1 | 23 | 24 => .slowDown | 2 => .fail | k => .done k
+  | 0 | 20 | 21 | 22 | 25 | 27 | 28 => .pending | 1 | 23 | 24 | 26 | 29 => .slowDown | 2 => .fail | k => .done k
 
 /-- outcome token the implementation must report for a decisive reply of kind `k` -/
 def outcomeTok : Nat → String
